@@ -8,6 +8,7 @@ import glob
 import json
 import os
 import vlib
+from props import bcommon
 
 
 def _canaries(cases, obs):
@@ -52,14 +53,14 @@ def run(prop, tier, seed):
     wd = vlib.workdir(prop)
     mod = os.path.join(vlib.SPEC, "props", "C25.tla")
     env = {"TIER": tier, "SEED": str(seed)}
-    enum_cases, res_e = vlib.gen_enumerate(prop, mod, env=env, workers=6, timeout=800)
-    nrand = 40 if tier == "quick" else 500
-    rand_cases, res_r = vlib.gen_simulate(prop, mod, nrand, seed, env=env, timeout=800,
+    enum_cases, res_e = bcommon.gen_enumerate(prop, mod, env=env, timeout=800)
+    nrand = 24 if tier == "quick" else 200
+    rand_cases, res_r = bcommon.gen_simulate(prop, mod, nrand, seed, env=env, timeout=800,
                                           cfg=os.path.join(vlib.SPEC, "props", "C25R.cfg"))
     cases = enum_cases + rand_cases
     if not cases:
         raise vlib.ToolError("C25 generator produced no cases")
-    obs, hwall = vlib.run_harness(cases, wd, timeout=120)
+    obs, hwall = bcommon.run_harness(cases, wd, timeout=120)
     broken = sum(1 for o in obs if o.get("compile") != "ok" or o.get("status") in ("abort", "timeout"))
     if broken * 4 > len(cases):
         raise vlib.ToolError("%d of %d sorting programs did not compile or were aborted: harness/generator problem" % (broken, len(cases)))
@@ -70,18 +71,33 @@ def run(prop, tier, seed):
                      "obs": {k: o[k] for k in ("compile", "status", "host") if k in o}})
     canaries = _canaries(cases, obs)
     allrecs = recs + canaries
-    opath = os.path.join(wd, "observed.ndjson")
-    vlib.write_ndjson(opath, allrecs)
-    vdir = os.path.join(wd, "verdicts")
-    os.makedirs(vdir, exist_ok=True)
-    res_v = vlib.tlc(os.path.join(vlib.SPEC, "props", "C25V.tla"), env={"OBS": opath, "OUTDIR": vdir, "TIER": tier},
-                     workers=6, timeout=1500)
-    vlib.tlc_ok(res_v, "C25V.tla")
+    # the validator reads the whole file into memory: hand it over in chunks of bounded size (3 GB heap)
+    chunks, cur, cur_entries = [], [], 0
+    for r in allrecs:
+        k = len(r["obs"].get("host") or [])
+        if cur and cur_entries + k > 250000:
+            chunks.append(cur)
+            cur, cur_entries = [], 0
+        cur.append(r)
+        cur_entries += k
+    if cur:
+        chunks.append(cur)
     verdicts = {}
-    for f in glob.glob(os.path.join(vdir, "v_*.json")):
-        with open(f) as fh:
-            v = json.load(fh)
-        verdicts[v["id"]] = v
+    v_states = 0
+    v_wall = 0.0
+    for ci, chunk in enumerate(chunks):
+        opath = os.path.join(wd, "observed_%d.ndjson" % ci)
+        vlib.write_ndjson(opath, chunk)
+        vdir = os.path.join(wd, "verdicts_%d" % ci)
+        os.makedirs(vdir, exist_ok=True)
+        res_v = bcommon.tlc(os.path.join(vlib.SPEC, "props", "C25V.tla"), timeout=1500,
+                            env={"OBS": opath, "OUTDIR": vdir, "TIER": tier, "LEMMAS": "1" if ci == 0 else "0"})
+        v_states += res_v.distinct
+        v_wall += res_v.wall
+        for f in glob.glob(os.path.join(vdir, "v_*.json")):
+            with open(f) as fh:
+                v = json.load(fh)
+            verdicts[v["id"]] = v
     if len(verdicts) != len(allrecs):
         raise vlib.ToolError("validator returned %d verdicts for %d records" % (len(verdicts), len(allrecs)))
 
@@ -126,8 +142,8 @@ def run(prop, tier, seed):
         "results_by_method": dict(by_method), "stability_checks": stable_checks,
         "validator_canaries_rejected": dict(collections.Counter(r["canary"] for r in canaries)),
         "info_strict_comparator_results_not_stable": strict_unstable,
-        "tlc_states_generation": res_e.distinct + res_r.generated, "tlc_states_validation": res_v.distinct,
-        "tlc_wall_s": round(res_e.wall + res_r.wall + res_v.wall, 1), "harness_wall_s": round(hwall, 1),
+        "tlc_states_generation": res_e.distinct + res_r.generated, "tlc_states_validation": v_states, "validator_runs": len(chunks),
+        "tlc_wall_s": round(res_e.wall + res_r.wall + v_wall, 1), "harness_wall_s": round(hwall, 1),
         "samples": vlib.sample_cases([dict(c, files={"main.abra": c["files"]["main.abra"][:600]}) for c in (cases[3], cases[-1])], 2),
     }
     rep.assumptions = [
